@@ -58,6 +58,15 @@ import (
 // practice).
 const c11Depth = 8
 
+// machinery limits (never oracles): a shard gives up with INFRA-ERROR when a
+// check has this many goroutines alive (unbounded eager recursion looks like
+// this; legitimate fan-out of 3^depth sub-checks stays well below), and a
+// single check is abandoned (counted, not judged) after c11CheckTimeout.
+const (
+	c11MaxGoroutines = 250000
+	c11CheckTimeout  = 60 * time.Second
+)
+
 var (
 	c11NS    = []string{"A", "B", "C"}
 	c11Rels  = []string{"r1", "r2"}
@@ -421,6 +430,8 @@ type c11Report struct {
 	EagerCycleSample                  string
 	Unstable                          int64
 	UnstableSample                    string
+	Abandoned                         int64
+	AbandonedSample                   string
 	NonTrivial                        int64
 	SchemaErrors, OtherErrors         int64
 	Unsettled, WriteRetries           int64
@@ -773,8 +784,18 @@ func (e *c11Engine) runProgram(index int, p *Prog, text string, maxTuples int) e
 					rep.Checks++
 					e.baseG = runtime.NumGoroutine()
 					c11Current.Store(&c11Case{text, fmt.Sprint(set), fmt.Sprintf("%s:o#%s@%s strict=%v", qu.NS, qu.Rel, subjNames[si], strict)})
-					res := e.reg.PermissionEngine().CheckRelationTuple(e.ctx, &relationtuple.RelationTuple{Namespace: qu.NS, Object: oid(qu.NS), Relation: qu.Rel, Subject: sub}, 0)
+					cctx, cancel := context.WithTimeout(e.ctx, c11CheckTimeout)
+					res := e.reg.PermissionEngine().CheckRelationTuple(cctx, &relationtuple.RelationTuple{Namespace: qu.NS, Object: oid(qu.NS), Relation: qu.Rel, Subject: sub}, 0)
+					timedOut := cctx.Err() != nil
+					cancel()
 					e.settle()
+					if timedOut {
+						rep.Abandoned++
+						if rep.AbandonedSample == "" {
+							rep.AbandonedSample = fmt.Sprintf("check %s:o#%s@%s (strict=%v), tuples %v, program:\n%s", qu.NS, qu.Rel, subjNames[si], strict, set, text)
+						}
+						continue
+					}
 					if res.Err == nil {
 						continue
 					}
@@ -918,7 +939,7 @@ func c11Shard(t *testing.T, shard, of int, outPath string) {
 	go func() { // runaway guard (machinery, not an oracle): a check that spawns goroutines without bound cannot be decided here
 		for {
 			time.Sleep(20 * time.Millisecond)
-			if n := runtime.NumGoroutine(); n > 20000 {
+			if n := runtime.NumGoroutine(); n > c11MaxGoroutines {
 				c := c11Current.Load()
 				fmt.Printf("INFRA-ERROR C11 runaway check: %d goroutines alive during %s with tuples %s on\n%s\n", n, c.query, c.tuples, c.doc)
 				os.Exit(3)
@@ -1130,6 +1151,10 @@ func TestC11(t *testing.T) {
 		if r.UnstableSample != "" && (tot.UnstableSample == "" || len(r.UnstableSample) < len(tot.UnstableSample)) {
 			tot.UnstableSample = r.UnstableSample
 		}
+		tot.Abandoned += r.Abandoned
+		if tot.AbandonedSample == "" {
+			tot.AbandonedSample = r.AbandonedSample
+		}
 		tot.EagerCycle += r.EagerCycle
 		if r.EagerCycleSample != "" && (tot.EagerCycleSample == "" || len(r.EagerCycleSample) < len(tot.EagerCycleSample)) {
 			tot.EagerCycleSample = r.EagerCycleSample
@@ -1200,6 +1225,8 @@ func TestC11(t *testing.T) {
 		"checks":                   int(tot.Checks),
 		"schema_errors":            int(tot.SchemaErrors),
 		"other_errors":             int(tot.OtherErrors),
+		"abandoned_checks":          int(tot.Abandoned),
+		"abandoned_check_example":   tot.AbandonedSample,
 		"unstable_candidates":       int(tot.Unstable),
 		"unstable_candidate_example": tot.UnstableSample,
 		"unsettled_goroutine_waits": int(tot.Unsettled),
@@ -1208,6 +1235,6 @@ func TestC11(t *testing.T) {
 		"storage_retries":          int(tot.WriteRetries),
 		"violations_by_signature":  sigs,
 		"frontier_indices_done":    tot.Done,
-		"exhaustive":               !tot.Cut,
+		"exhaustive":               !tot.Cut && tot.Abandoned == 0,
 	})
 }
